@@ -1052,7 +1052,12 @@ class ChannelFactory:
                 queue.put(item)
         else:
             try:
-                data = loads_internal(data, channel, strconfig)
+                unserializer = Unserializer(BytesIO(data), channel, strconfig)
+                if channel is None:
+                    # the channel object is gone but its callback lives on:
+                    # contained channels still belong to this gateway
+                    unserializer.channelfactory = self
+                data = unserializer.load()
                 callback(data)  # even if channel may be already closed
             except Exception as exc:
                 self.gateway._trace("exception during callback: %s" % exc)
